@@ -43,6 +43,7 @@ import (
 	"net"
 	"os"
 	"path/filepath"
+	"runtime"
 	"strconv"
 	"strings"
 	"sync"
@@ -541,8 +542,28 @@ func (r rejectReason) MarshalCBOR() ([]byte, error) { return r.raw, nil }
 var opaqueItems = [][]byte{
 	{0xd8, 0x18, 0x01},             // 24(1): encoded-CBOR tag around an integer
 	{0xd8, 0x1e, 0x82, 0x01, 0x00}, // 30([1, 0]): rational with denominator zero
-	{0xc2, 0x01},                   // 2(1): bignum tag around an integer
-	{0xc3, 0x01},                   // 3(1): negative bignum tag around an integer
+	{0xd9, 0x01, 0x02, 0x01},       // 258(1): set tag around an integer
+	{0xd8, 0x1e, 0x01},             // 30(1): rational tag around an integer
+	// (tags 0..3 around content of the wrong type cannot be sent: the server's encoder refuses them)
+}
+
+// the opaque reasons must pass the server's encoder and the message decoder, otherwise the request would never be
+// answered at all
+func checkOpaqueItems(rep *vh.Reporter) {
+	for k := range opaqueItems {
+		reason := reasonOf(k, true, 0)
+		enc, err := cbor.Encode(txsub.NewMsgRejectTx(reason))
+		if err != nil {
+			rep.Dead("opaque reject reason %x cannot be sent: %v", reason, err)
+		}
+		m, err := txsub.NewMsgFromCbor(txsub.MessageTypeRejectTx, enc)
+		if err != nil {
+			rep.Dead("opaque reject reason %x is refused by the message decoder, not by the reason decoder: %v", reason, err)
+		}
+		if r, ok := m.(*txsub.MsgRejectTx); !ok || !bytes.Equal(r.Reason, reason) {
+			rep.Dead("opaque reject reason %x does not survive the wire", reason)
+		}
+	}
 }
 
 // reasonOf: the reason the tagging server gives when it rejects the transaction of this request. The form is a
@@ -884,6 +905,10 @@ func runRow(r *row, pd protoDef, seed int64) (fs []finding, calls int, dead stri
 			select {
 			case <-done[g]:
 			case <-time.After(callTimeout):
+				if os.Getenv("VERIF_C25_DUMP") != "" { // diagnosis: where does everybody wait
+					buf := make([]byte, 1<<20)
+					os.Stderr.Write(buf[:runtime.Stack(buf, true)])
+				}
 				fs = append(fs, finding{
 					fmt.Sprintf("proto=%s:conc=%d:what=noreturn:prog=%s:h=%s:g=%d", pd.name, b2i(!r.Seq), progString(r), hString(r), g+1),
 					fmt.Sprintf("a call of goroutine %d has not returned %s after it was due in the history", g+1, callTimeout)})
@@ -1064,6 +1089,7 @@ func main() {
 		rep.Dead("usage: c25 rows.ndjson...")
 	}
 	loadTxs(rep)
+	checkOpaqueItems(rep)
 	installTracer()
 	if os.Args[1] == "-stress" { // replay of a stress finding: c25 -stress <proto> <G> <K>
 		if len(os.Args) < 5 {
